@@ -296,6 +296,9 @@ class Scen:
             # "in time": our side was still open to it (close() had not given up or returned, transport open)
             # "in time": before our side began to close, or while our close() was genuinely blocked waiting for it
             self.peer_close_in_time = quiet and self._listening(quiet) and not self.abnormal
+        if tok.startswith("close") and not self.out_tr.is_closing() and not self.out_tr._lost_called:
+            self.peer_close_before_our_transport_closed = True
+            self.t_peer_close = self.loop.time()
         data = peer_frame(tok, masked=self.side == "server")
         if tok in ("garbage", "badutf8"):
             self.abnormal = True
@@ -434,6 +437,13 @@ class Scen:
                 if code not in ok:
                     why = "peer-FIN-without-close-frame" if self.peer_fin else "connection-reset" if self.dropped else "protocol-error"
                     self.P(f"wrong-close-code:{code}:{why}", f"{why} while the session was open and idle: close_code is {code}, expected 1006; received {self.received}")
+        # 5b. both close frames crossed while nothing else happened (no timer, no fault, no time passing): whatever the
+        #     order of the tasks within the pass, the handshake is complete - never 1006
+        if (ws.closed and not cancelled and not timers and self.raced and self.peer_close_code not in (None, -1) and closes
+                and not self.dropped and not self.peer_fin and not self.abnormal and getattr(self, "t_peer_close", None) == 0 and self.close_t == 0 and not case.get("blocked_writes")
+                and getattr(self, "peer_close_before_our_transport_closed", False)):
+            if ws.close_code == 1006 or (self.close_dur or 0) >= CLOSE_TIMEOUT:
+                self.P(f"wrong-close-code:{ws.close_code}:close-frames-crossed" if ws.close_code == 1006 else "close-waits-out-its-timeout:close-frames-crossed", f"our CLOSE frame went out and the peer's CLOSE (code {self.peer_close_code}) was delivered, with no fault, timer or time passing, but close_code is 1006; received {self.received}")
         for e in self.loop.collect_exceptions():
             msg = str(e.get("message"))
             if "Unclosed" in msg:
